@@ -349,7 +349,7 @@ func GenMsg(r *fw.Rand, nonce string, size int, aged bool) *MsgSpec {
 // Sequences.
 
 var neverIDs = []string{"", "0", "-1", "x", "99999999", "01", " 1", "1 ", "20010101T000000-0000", "20990101T000000-9999",
-	"latest2", "LATEST", "../index", "index.gob", "1.raw", "é", "nope"}
+	"latest2", "LATEST", "../index", "index.gob", "1.raw", "é", "nope", "+1", "+2", "002", "1.0", "0x1", "1e0"}
 
 // Weights holds the relative frequency of each operation kind.
 type Weights struct {
@@ -393,6 +393,10 @@ func GenOps(r *fw.Rand, names []Name, n int, w Weights, nonce string, sizeFn fun
 			}
 		case 2:
 			o.Which = SelNever
+			if (kind == OpSeen || kind == OpRemove) && r.Chance(1, 3) {
+				// "latest" is a read alias of GetMessage only; it is not the id of any message.
+				o.Never = "latest"
+			}
 		default:
 			o.Which = SelForeign
 		}
@@ -436,7 +440,11 @@ func GenOps(r *fw.Rand, names []Name, n int, w Weights, nonce string, sizeFn fun
 			case 1: // deliver right after a removal
 				follow = newAdd(b)
 			case 2:
-				follow = &Op{Kind: OpGet, Box: b, Which: SelRemoved, Sel: 0, Never: o.Never}
+				nv := o.Never
+				if nv == "latest" {
+					nv = "nope" // for GetMessage "latest" is an alias, not a missing id
+				}
+				follow = &Op{Kind: OpGet, Box: b, Which: SelRemoved, Sel: 0, Never: nv}
 			}
 		case 6:
 			ops = append(ops, &Op{Kind: OpPurge, Box: b})
